@@ -542,6 +542,8 @@ func C10(c *hx.Ctx) {
 	}
 	// a stale temporary file (long regular file / symbolic link to an unrelated file) where gxz creates its own
 	gxzStaleTemp(c, bin)
+	// dash-only names, long operand lists (exit status, independence of members)
+	gxzOperandEdgeCases(c, bin)
 	// Interrupted runs: the handler runs concurrently with the main goroutine, so the order of
 	// their system calls is up to the scheduler. The traces are validated against the same
 	// automaton; a rejection is reported in the evidence but is not a verdict of its own (the
